@@ -541,7 +541,7 @@ class VerifyTask:
         st.ghost["ver"] = {}
         ens = c.ensures(old, self_obj, a, result) if self_obj is not None else c.ensures(a, result)
         for label, fml in c._gen(ens):
-            st.oblige(f"{self.name}/post/{label}", fml, "post")
+            st.oblige(f"{self.name}/post/{label}", fml, "post", assume_after=not getattr(c, "independent_posts", False))
         st.ghost["ver"] = dict(st.ghost["ver_post"])
         if inv is not None and self_obj is not None:
             st.oblige(f"{self.name}/class-inv@exit", inv(self_obj), "invariant")
